@@ -692,7 +692,7 @@ def run_reexport_sound(ctx: Ctx) -> None:
             o = list(range(n))
             ctx.rng.shuffle(o)
             ords.append(o)
-        reqs.append("imports rsound " + " ".join(toks) + " O| ? " + " ".join(",".join(map(str, o)) for o in ords))
+        reqs.append("imports rsound " + " ".join(toks) + " O|- ? " + " ".join(",".join(map(str, o)) for o in ords))
         pay.append({"units": src, "orders": ords, "gen": "shape"})
         answers = []
         for order in ords:
@@ -742,7 +742,7 @@ def run_reexport_sound(ctx: Ctx) -> None:
             ctx.count("rsound:c07:unsupported:" + str(e))
             continue
         ords = orders(units, ctx.rng, 4 if ctx.quick else 8)
-        reqs.append("imports rsound " + " ".join(toks) + " O| ? " + " ".join(",".join(map(str, o)) for o in ords))
+        reqs.append("imports rsound " + " ".join(toks) + " O|- ? " + " ".join(",".join(map(str, o)) for o in ords))
         pay.append({"units": {u.qname: u.source for u in units2}, "orders": ords, "gen": "c07"})
     # --- BindGen with re-exports (mostly outside the shape: chains, star re-exports, packages as definers)
     for _ in range(15 if ctx.quick else 300):
